@@ -39,6 +39,30 @@ structure ZerosShape where
   rows : Nat → Nat → Nat → Nat → Nat → Option Nat
   cols : Nat → Nat → Nat → Nat → Nat → Option Nat
 
+/-- how the array passed as `out=` to a masked ufunc was created: by a constructor that fills it (`np.zeros`, `np.ones`,
+    `np.full`, …), by one that leaves it uninitialised (`np.empty`, `np.ndarray`), as the value of some other expression,
+    not at all (`out=` absent: NumPy allocates an uninitialised result), or in a way the translator does not resolve -/
+inductive OutInit where
+  | filled | raw | computed | missing | unknown
+  deriving DecidableEq, Repr
+
+/-- `np.<ufunc>(..., where=mask[, out=arr])` found in the source -/
+structure MaskedCall where
+  fn : String
+  idx : Nat
+  ufunc : String
+  out : OutInit
+  deriving DecidableEq, Repr
+
+/-- `np.empty(...)`, `np.empty_like(...)` or `np.ndarray(...)` found in the source; `filledNext`: the first later statement that
+    mentions the array is `<name>.fill(v)` -/
+structure RawAlloc where
+  fn : String
+  idx : Nat
+  ctor : String
+  filledNext : Bool
+  deriving DecidableEq, Repr
+
 /-- what the translator emits for element-wise code it cannot re-express: an opaque value, about which
     nothing can be proved -/
 opaque unknownFormula (what : String) : Rat
